@@ -328,4 +328,12 @@ def rule_quantiles_shared(ck):
     c09.rule_pair(ck)
 
 
-RULES = [rule_poisson, rule_nbd, rule_catalog, rule_totals, rule_precision, rule_quantiles_shared]
+def rule_every_catalog_counted(ck):
+    """the catalog N-test counts the sizes of *all* synthetic catalogs, the empty ones included: a pass yields every catalog of the
+    source (shared C13-D1 / D4: the iterator)"""
+    from . import c13
+    ck.clause('D3 (shared C13: a pass over the forecast yields every synthetic catalog once)')
+    c13.rule_next(ck)
+
+
+RULES = [rule_poisson, rule_nbd, rule_catalog, rule_totals, rule_precision, rule_quantiles_shared, rule_every_catalog_counted]
